@@ -300,6 +300,9 @@ def rule_joinform(ctx):
     seenp = set()
     bad = []
     for p_ in pieces:
+        if p_.op == "fstr" and sum(1 for z in p_.a if z.op != "const") == 1 and all(z.op != "const" or isinstance(z.a[0], str) for z in p_.a):
+            # f"({','.join(extensions)})" is "(%s)" % ','.join(extensions)
+            p_ = tm.mk("bin", "%", tm.const("".join(z.a[0] if z.op == "const" else "%s" for z in p_.a)), [z for z in p_.a if z.op != "const"][0])
         if p_.op == "param":
             seenp.add(p_.a[0])
         elif p_.op == "bin" and p_.a[0] == "%" and p_.a[1].op == "const":
@@ -422,6 +425,26 @@ def rule_exc(ctx):
                 has_default = len(c.args) >= 2 and not tm.is_const(c.args[1], None)
                 none_tested = any(r.exc == "InvalidChordException" and any(cc.op == "cmp" and cc.a[0] in ("is", "isnot") and tm.is_const(cc.a[1], None) and _mentions(cc.a[2], c.term) for cc, _ in symeval.pc_conds(r.pc)) for r in s.by_kind("raise"))
                 after_validation = q in ("chord.pitch_class_to_semitone",) and _only_called_after_split(ctx, q)
+                # `r = T.get(k); return r if r is not None else default`: a default spelled as a conditional expression
+                def none_defaulted(t):
+                    if t.op == "ite" and t.a[0].op == "cmp" and t.a[0].a[0] in ("is", "isnot") and any(tm.is_const(z, None) for z in t.a[0].a[1:]) and any(z is c.term for z in t.a[0].a[1:]):
+                        other = t.a[2] if t.a[0].a[0] == "isnot" else t.a[1]
+                        return not any(z is c.term for z in tm.walk(other))
+                    return False
+
+                # (a conditional return is summarised as two returns, each under its branch condition)
+                using = [r_ for r_ in s.returns if any(y is c.term for y in tm.walk(r_.term))]
+                def not_none_on(r_):
+                    for cc, pp in symeval.pc_conds(r_.pc):
+                        if cc.op == "cmp" and cc.a[0] in ("is", "isnot") and any(tm.is_const(z, None) for z in cc.a[1:]) and any(z is c.term for z in cc.a[1:]) and ((cc.a[0] == "isnot") == pp):
+                            return True
+                    return False
+
+                if not has_default and using and all(not_none_on(r_) for r_ in using) and len(s.returns) > len(using):
+                    has_default = True
+                uses_ = [z for r_ in s.returns for z in tm.walk(r_.term) if any(y is c.term for y in tm.children(z))]
+                if not has_default and uses_ and all(none_defaulted(z) or (z.op == "cmp" and z.a[0] in ("is", "isnot")) for z in uses_):
+                    has_default = True
                 yield ob("C10.EXC", f, "%s:get:%s" % (q, c.base.a[0]), has_default or none_tested or after_validation, ".get on %s: %s" % (c.base.a[0], "total default" if has_default else "None-tested with InvalidChordException" if none_tested else "reached only after validation" if after_validation else "result may be None and is used arithmetically"), node=c.node)
 
 
